@@ -134,6 +134,7 @@ Record cloc := mkCl {
 Inductive wpc :=
   | WIdle | WAsleep             (* POOL_thread: at lock(queueMutex) / asleep on queuePopCond *)
   | WGetCCtx | WGetSeq | WGetBuf
+  | WSetDst                     (* job->dstBuff = the buffer: at lock(job_mutex) (ZSTDMT_sizeof_CCtx may read it concurrently) *)
   | WJobErr                     (* JOB_ERROR: at lock(job_mutex) *)
   | WSerial | WSerialZ          (* ZSTDMT_serialState_update: at lock(serial.mutex) / asleep on serial.cond *)
   | WChunk (k : N)              (* after compressing chunk k: at lock(job_mutex) *)
@@ -621,12 +622,12 @@ Definition worker_step (cfg : config) (t : nat) (s : state) : option state :=
     | WGetBuf =>
         let got := (0 <? bp_nb p) || negb (err_is py ErrBuf) in
         let s1 := set_pl (pl_bp (take (bp_nb p)) p) s in
-        if negb got then Some (set_w t (w_set_pc WJobErr w) s1)
-        else
-          let s2 := set_job k (j_set_dst true jb) s1 in
-          if ldm (mt s) && negb (w_seq w) then Some (set_w t (w_set_pc WJobErr w) s2)
-          else if err_is py ErrInit then Some (set_w t (w_set_pc WJobErr w) s2)
-          else Some (set_w t (w_set_pc WSerial w) s2)
+        if negb got then Some (set_w t (w_set_pc WJobErr w) s1) else Some (set_w t (w_set_pc WSetDst w) s1)
+    | WSetDst =>
+        let s2 := set_job k (j_set_dst true jb) s in
+        if ldm (mt s) && negb (w_seq w) then Some (set_w t (w_set_pc WJobErr w) s2)
+        else if err_is py ErrInit then Some (set_w t (w_set_pc WJobErr w) s2)
+        else Some (set_w t (w_set_pc WSerial w) s2)
     | WJobErr => Some (set_w t (w_set_pc WEnsure w) (set_job k (j_upd_work (j_consumed jb) (j_csize jb) true jb) s))
     | WSerial =>
         let r := sr s in
